@@ -504,6 +504,7 @@ func r44TileAddressingInverse(c *core.Ctx) {
 	}
 	r44OutsideMapsToNoTile(c, fn)
 	r44RoundingOnlyOnResults(c, []*core.Func{fn, tn, bb, ms})
+	r44ToNativeAcceptsFarCorner(c, tn)
 	c.Floor(R, 7)
 }
 
@@ -747,4 +748,68 @@ func r44RoundingOnlyOnResults(c *core.Ctx, fs []*core.Func) {
 		}
 	}
 	c.Check(R, "rounding-only-on-results/tms20", fs[0].Decl.Pos(), bad == "" && n >= 5, fmt.Sprintf("%d rounding sites in the addressing functions, each applied to a final coordinate or size", n), "rounding is applied to an intermediate value: "+bad)
+}
+
+
+// r44ToNativeAcceptsFarCorner: ToNative answers for tile indices up to and including the matrix width/height (the
+// corner of tile (width, height) is the far corner of the bounding box) and refuses beyond: the refusal is guarded
+// by tile.X > MatrixWidth and tile.Y > MatrixHeight, strictly.
+func r44ToNativeAcceptsFarCorner(c *core.Ctx, f *core.Func) {
+	const R = "R44"
+	fn := f.SSA
+	if fn == nil {
+		return
+	}
+	got := map[string]string{} // axis -> operator found
+	for _, b := range fn.Blocks {
+		i := core.BlockIf(b)
+		if i == nil {
+			continue
+		}
+		cmp, ok := i.Cond.(*ssa.BinOp)
+		if !ok {
+			continue
+		}
+		tileField := func(v ssa.Value) string {
+			for _, n := range []string{"X", "Y"} {
+				if isFieldRead(v, n) {
+					return n
+				}
+			}
+			return ""
+		}
+		l, r := cmp.X, cmp.Y
+		op := cmp.Op
+		if tileField(l) == "" && tileField(r) != "" {
+			l, r = r, l
+			op = map[token.Token]token.Token{token.GTR: token.LSS, token.LSS: token.GTR, token.GEQ: token.LEQ, token.LEQ: token.GEQ}[op]
+		}
+		ax := tileField(l)
+		if ax == "" {
+			continue
+		}
+		want := map[string]string{"X": "MatrixWidth", "Y": "MatrixHeight"}[ax]
+		if !isFieldRead(r, want) {
+			if isFieldRead(r, "MatrixWidth") || isFieldRead(r, "MatrixHeight") {
+				got[ax] = "compared with the other axis' size"
+			}
+			continue
+		}
+		// which side refuses: the edge from which only failing returns are reachable
+		refuses := func(k int) bool {
+			found, _ := core.Search{Fn: fn, From: i, Target: func(in ssa.Instruction) bool {
+				ret, ok := in.(*ssa.Return)
+				return ok && len(ret.Results) == 2 && isConstBool(ret.Results[1], true)
+			}, Edge: func(bb *ssa.BasicBlock, kk int) bool { return !(bb == b && kk != k) }}.Run()
+			return !found
+		}
+		switch {
+		case op == token.GTR && refuses(0), op == token.LEQ && refuses(1):
+			got[ax] = ">"
+		case op == token.GEQ && refuses(0), op == token.LSS && refuses(1):
+			got[ax] = ">="
+		}
+	}
+	okc := got["X"] == ">" && got["Y"] == ">"
+	c.Check(R, "tonative-accepts-far-corner/"+f.Name, f.Decl.Pos(), okc, "refuses exactly tile.X > MatrixWidth or tile.Y > MatrixHeight", fmt.Sprintf("ToNative's range guard is not `tile.X > MatrixWidth || tile.Y > MatrixHeight` (found X: %q, Y: %q): the corner of tile (width, height), which is the far corner of the bounding box, must be answered, anything beyond refused", got["X"], got["Y"]))
 }
